@@ -357,7 +357,10 @@ def run(c):
   facts, unknown = error_table.write(core.REPO, core.LEAN_DIR)
   c.add_obligation('translator: handle_exception / _report_lookup_errors recognised', not unknown, '; '.join(unknown))
   c.coverage_extra['error_table'] = facts
+  from vcheck import pythiashapecheck
+  pythiashapecheck.translate(c)
   c.proof_stage()
+  pythiashapecheck.stage(c)
   rpc_histories(c)
   hosted_histories(c)
   client_programs(c)
